@@ -189,7 +189,7 @@ func vhSameStored(a, b interface{}) bool {
 
 // Numeric text is parsed strictly (decimal integer, else a float literal):
 // concrete spellings through the real strconv.
-//verif:bounds 16 concrete text spellings (decimal, leading zeros, signs, hex/octal/binary prefixes, exponents, blanks, empty, letters) as TEXT and as BLOB x destinations int64, int32, int, bool, float64
+//verif:bounds 20 concrete text spellings (decimal, leading zeros, signs, hex/octal/binary prefixes, exponents, blanks, empty, letters, integers beyond 2^53 up to the int64 extremes) as TEXT and as BLOB x destinations int64, int32, int, bool, float64
 func VH_C18_numeric_text() {
 	type tc struct {
 		s     string
@@ -205,6 +205,11 @@ func VH_C18_numeric_text() {
 		{"1e3", true, 1000, true, 1000}, {"2.5", true, 2, true, 2.5},
 		{" 5", false, 0, false, 0}, {"5 ", false, 0, false, 0}, {"", false, 0, false, 0},
 		{"12abc", false, 0, false, 0}, {"abc", false, 0, false, 0},
+		// integers a float64 cannot hold: integer text must not take a float round trip
+		{"9007199254740993", true, 9007199254740993, true, 9007199254740992},
+		{"1234567890123456789", true, 1234567890123456789, true, 1234567890123456789},
+		{"9223372036854775807", true, 9223372036854775807, true, 9223372036854775807},
+		{"-9223372036854775808", true, -9223372036854775808, true, -9223372036854775808},
 	}
 	c := cases[sdb.VerifChoice(len(cases))]
 	var row Row
